@@ -615,7 +615,21 @@ def run_parallel(plugin, exe, cases, timeout):
             except Exception:
                 return 1
         fails = sorted(fails[:64], key=rank)    # stable: property-breaking failures first
-    return fails[:8], validated
+    # keep the reports varied: round-robin over (failure kind, first op of the case) instead of the first eight found
+    buckets = {}
+    order = []
+    for f in fails:
+        key = (f.kind, (f.crash or "").split(":")[0], f.case[0].split()[0] if f.case else "")
+        if key not in buckets:
+            buckets[key] = []
+            order.append(key)
+        buckets[key].append(f)
+    picked = []
+    while len(picked) < 8 and any(buckets[k] for k in order):
+        for k in order:
+            if buckets[k] and len(picked) < 8:
+                picked.append(buckets[k].pop(0))
+    return picked, validated
 
 
 def replay(plugin, pid, path):
